@@ -99,6 +99,8 @@ package fs
 //@   modifies fsDirSynced
 //@   modifies fsDataSynced
 //@   at-call os.Rename requires durable-before-rename: file.written && file.synced && file.closed
+//@   at-call os.Rename requires temp-onto-final: arg1 == name && arg0 != name
+//@   at-call os.Remove requires never-the-final-name: arg0 != name
 //@   ensures  commit:    result1 == nil ==> fsRenamed && fsDirSynced && result0 == len(buffer)
 //@   ensures  untouched: !fsRenameTried ==> result1 != nil && !fsRenamed
 //@   ensures  cleanup:   fsTmpOpened && !fsRenameTried ==> fsRemoveTried
